@@ -46,6 +46,7 @@ def run(ctx):
   batch_unbatch(ctx)
   redistribution(ctx)
   slice_back(ctx)
+  sharded_init_pads(ctx)
   axis_names(ctx)
   from . import C07
   C07.squeeze_lint(ctx)
@@ -260,6 +261,39 @@ def parallel_lists(ctx):
         raise AnalysisError(f'{q}: no padding entries found in the lists handed to batch')
       tp = mult[0]
       want = sp.expand(N + ln.scalar(tp))
+      # the not-taken arm of the refresh cond (efficient_cond's init state) must have the tree the taken arm produces:
+      # every list in it holds one entry per batched statistic, N + to_pad - a carry of another length is a structure
+      # mismatch as soon as to_pad > 0 (more than one device)
+      from .C04 import parse_mod_guard
+      conds = list(dict.fromkeys(x for v_ in sc.vars.values() for x in walk(v_)
+                                 if x.op == 'cond' and parse_mod_guard(x.args[0]) is not None and D.contains_root_call(x.args[1])))
+      n_init = 0
+      for cnd in conds:
+        stack_ = [cnd.args[2]]
+        seen_ = set()
+        while stack_:
+          t_ = stack_.pop()
+          if t_ in seen_:
+            continue
+          seen_.add(t_)
+          if t_.op == 'list' and any(e_.op == 'star' for e_ in t_.args):
+            try:
+              got = ln.of(t_)
+            except LenError:
+              continue
+            n_init += 1
+            ctx.ob('C13.P2', fi.short, f'stale carry has one entry per batched statistic [reuse={reuse},axis={fixed.get("batch_axis_name")}]',
+                   sp.simplify(got - want) == 0,
+                   f'a list in the not-taken arm of the refresh cond has length {got}; the taken arm returns N + to_pad = {want} entries '
+                   '(the two arms of efficient_cond must have the same tree: this fails on more than one device)', ctx.loc(fi),
+                   sample=f'len = {want}', trivial=True)
+            continue
+          if t_.op == 'rec':
+            stack_.extend(v2 for _, v2 in t_.args[1])
+          elif t_.op in ('tuple', 'list', 'cond', 'ite'):
+            stack_.extend(a_ for a_ in t_.args if isinstance(a_, T))
+      if v['metrics'] if isinstance(v, dict) and 'metrics' in v else True:
+        ctx.need('C13.P2', n_init, 1, f'lists in the stale carry of the refresh cond of {q}')
       for c in calls:
         x = c.args.get('x', NONE)
         nd = c.args.get('num_devices', NONE)
@@ -317,6 +351,16 @@ def parallel_lists(ctx):
             members = it.args[1]
             if any(y is P('original_shapes') or y is P('prev_preconditioners') for y in members):
               okz = True
+              # every zipped list is read from its position 0: entry i of the flat results (roots, errors) belongs to
+              # statistic i, the pads sit at the END - an offset or end-anchored slice pairs statistic i with entry i + k
+              for y in members:
+                y0 = strip_casts(y)
+                off = y0.op == 'sub' and y0.args[1].op == 'slice' and not is_const(y0.args[1].args[0], None)
+                rev = (y0.op == 'call' and y0.args[0].op == 'builtin' and y0.args[0].args[0] == 'reversed') or \
+                    (y0.op == 'sub' and y0.args[1].op == 'slice' and not is_const(y0.args[1].args[2], None))
+                ctx.ob('C13.P2', fi.short, f'zipped results aligned at position 0 [reuse={reuse}]', not (off or rev),
+                       f'a list zipped with the per-statistic lists is shifted / reversed: `{show(y0, maxdepth=4)[:120]}` - result i would be judged by '
+                       'the error (or cut to the shape) of another statistic whenever padding is present', ctx.loc(fi), sample='zip(results, shapes, prev, errors) from position 0', trivial=True)
       ctx.ob('C13.P2', fi.short, f'results zipped against the N-long per-statistic lists [reuse={reuse}]', okz,
              'the accepted roots must be collected by zipping the flat results with original_shapes / prev_preconditioners (length N), which drops the pads',
              ctx.loc(fi), sample='zip(results, original_shapes, prev_preconditioners, errors)')
@@ -349,6 +393,54 @@ def parallel_lists(ctx):
   ctx.ob('C13.P2', fi.short, 'sharded: statistics and padding starts extended in lock-step', ok,
          'new_padded_statistics and padding_starts must receive one entry per statistic and the same number of pads', ctx.loc(fi),
          sample='extend per statistic; += [0] * to_pad / eye pads')
+
+
+def sharded_init_pads(ctx):
+  """P2s: in the sharded initial state the three global arrays (statistics, preconditioners, exponents) list the real
+  entries first, in parameter order, and the dummy / padding rows after them - however they are assembled (a list
+  extended by pads and stacked, or jnp.pad of the stacked real entries with a zero leading width).  index_start of the
+  local records counts from the front, and the update pads at the end."""
+  m = ctx.model
+  fi = m.func(MOD, F + '.sharded_init_fn')
+  ctx.analysed(fi)
+  ev = evaluator(m, decide=Decider(calls={('_skip_preconditioning',): False}, truth={'best_effort_memory_usage_reduction': False}),
+                 opaque={'preconditioner_from_params', 'shapes_for_preconditioners', '_skip_preconditioning', '_quantize_momentum',
+                         '_quantize_diagonal_statistics', 'init_avg_grad', 'init_training_metrics', '_max_statistics_size_from_params',
+                         'precond_dim', 'exponent_for_preconditioner'})
+  ev.run(fi)
+  gs = [c for c in ev.calls if c.via == 'construct' and c.callee.endswith('.GlobalShardedParameterStats')]
+  ctx.need('C13.P2', len(gs), 1, 'GlobalShardedParameterStats constructor in sharded_init_fn')
+
+  def order_ok(t):
+    """(ok, why) for an array term assembled from per-statistic entries and pads"""
+    t = strip_casts(t)
+    if is_ext_call(t, 'jax.numpy.stack', 'jax.numpy.concatenate', 'jax.numpy.asarray', 'jax.numpy.array') and t.args[1]:
+      return order_ok(t.args[1][0])
+    if is_ext_call(t, 'jax.numpy.pad') and len(t.args[1]) >= 2:
+      w = t.args[1][1]
+      lead = w.args[0] if w.op in ('tuple', 'list') and w.args else None
+      if lead is not None and lead.op in ('tuple', 'list') and lead.args:
+        lead = lead.args[0]                              # ((before, after), ...) form: first axis
+      if lead is None or not is_const(lead, 0):
+        return False, f'jnp.pad with leading width `{show(lead, maxdepth=3) if lead is not None else "?"}` puts padding BEFORE the real entries'
+      return order_ok(t.args[1][0])
+    if t.op == 'list':
+      kinds = [_is_pad(e) for e in t.args]
+      if kinds != sorted(kinds):
+        return False, 'padding entries precede real entries in the list'
+      return True, ''
+    if t.op == 'bin' and t.args[0] == '+':
+      a_, b_ = order_ok(t.args[1]), order_ok(t.args[2])
+      return (a_[0] and b_[0]), (a_[1] or b_[1])
+    return None, f'array assembled in an unrecognised way: `{show(t, maxdepth=3)[:100]}`'
+  for fld in ('statistics', 'preconditioners', 'exponents'):
+    ok, why = order_ok(gs[0].args.get(fld, NONE))
+    if ok is None:
+      ctx.defer(f'sharded_init_fn: {fld}: {why}')
+      continue
+    ctx.ob('C13.P2', fi.short, f'sharded init: {fld} rows = real entries, then pads', ok,
+           f'global `{fld}`: {why}: row i no longer belongs to statistic i (index_start counts from the front, the update pads at the end)', ctx.loc(fi),
+           sample='real rows first, dummy rows last')
 
 
 BACKENDS = ('_pmap_compute_preconditioners', '_pmap_quantized_compute_preconditioners', '_pjit_compute_preconditioners')
@@ -445,6 +537,17 @@ def caller_lists(ctx):
       ctx.ob('C13.P2', fc.short, f'{be}: one `{k}` entry per statistic of every state', ok,
              msg + ': statistics, shapes, exponents and previous preconditioners no longer line up position by position', ctx.loc(fc),
              sample=f'{k}: {got} per state')
+    # ... and WHAT is handed down: the stored statistics and the stored preconditioners themselves (the "old" value the
+    # acceptance gate falls back to must be bit-for-bit the one in the state, not a reset / rescaled copy)
+    from .C03 import pure_projection
+    for k, field in (('statistics', 'statistics'), ('prev_preconditioners', 'preconditioners')):
+      lst_ = c.args.get(k, NONE)
+      elems = [e_.args[0] if e_.op == 'star' else e_ for e_ in lst_.args] if lst_.op == 'list' else None
+      okv = bool(elems) and all(pure_projection(e_, {'states'}) and
+                                any(x.op == 'attr' and x.args[1] == field for x in walk(e_)) for e_ in elems)
+      ctx.ob('C13.P2', fc.short, f'{be}: `{k}` holds the stored {field} themselves', okv,
+             f'every entry of `{k}` must be an element of state.{field} unchanged; got `{show(lst_, maxdepth=5)[:200]}`', ctx.loc(fc),
+             sample=f'{k}.extend(state.{field})')
     nps = c.args.get('num_statistics_per_state')
     okn = nps is not None and nps.op == 'list' and len(nps.args) == 1 and nps.args[0].op == 'star' and \
         sp.simplify(ln.scalar(nps.args[0].args[0]) - n_s) == 0
